@@ -9,27 +9,27 @@ CHECKS = {
    note="trusted: vinstr rewriting (validated by running the repository's tests on the rewritten package), vrt/vnet semantics, refmodel.JudgeOpen; default schedule only"),
  "C08": dict(level="exploration", design="4/C08",
    technique="bounded-exhaustive enumeration of faulty headers / segmentations / states through the virtual wire into the real FSM vs RFC 4271 6.1 reaction table; every case (quick: every 10th) is also replayed against the unrewritten package on the Go runtime over loopback TCP and the transcripts compared (conformance of the virtual runtime)",
-   text="Every single-octet marker corruption, every out-of-range length of a boundary set (all 65536 values are partitioned into <19, in range, >4096 with the boundaries and a stride sweep), every unknown type octet, at each of OpenSent/OpenConfirm/Established and both directions, preceded by well-formed messages that must take effect and followed by a well-formed UPDATE that must not, under several TCP segmentations (incl. 1-byte writes); plus every in-range UPDATE length in Established delivered byte-exact and every plugin-returned NOTIFICATION data length 0..4075 reaching the wire verbatim. One real FSM run per case under the deterministic runtime.",
+   text="Every single-octet marker corruption, every out-of-range length of a boundary set (all 65536 values are partitioned into <19, in range, >4096 with the boundaries and a stride sweep), every unknown type octet, at each of OpenSent/OpenConfirm/Established and both directions, preceded by well-formed messages that must take effect and followed by a well-formed UPDATE that must not, under several TCP segmentations (incl. 1-byte writes); plus every in-range UPDATE length in Established delivered byte-exact and every plugin-returned NOTIFICATION data length 0..4075 reaching the wire verbatim. One real FSM run per case under the deterministic runtime. Headers with several faults (the marker fault dominates), KEEPALIVE-typed messages with bodies, bytes left over by an ended connection, other session configurations (hold 0 on either side, iBGP, a peer advertising capability 6), two peers receiving at once and a header fault while plugin goroutines are writing (schedules within the bound).",
    note="trusted: vinstr/vrt/vnet, wire.ParseStrict; default schedule only; data of (1,1)/(1,2) not judged"),
  "C09": dict(level="exploration", design="4/C09",
    technique="exhaustive enumeration of the (state, message, direction) table and received NOTIFICATION/FIN/RST faults through the virtual wire into the real FSM; every case (quick: every 10th) is also replayed against the unrewritten package on the Go runtime over loopback TCP and the transcripts compared (conformance of the virtual runtime)",
-   text="All 3 states x {OPEN, UPDATE, KEEPALIVE} x 2 directions, received NOTIFICATIONs (codes 1-7 x subcodes x data lengths), FIN and RST also in mid-message: each cell is one real FSM run judged against the RFC 4271 8.2.2 / RFC 6608 table (legal progress, FSM error with state subcode and type octet, silent close), OnClose exactly once for Established cells. The table is finite and enumerated completely.",
+   text="All 3 states x {OPEN, UPDATE, KEEPALIVE} x 2 directions, received NOTIFICATIONs (codes 1-7 x subcodes x data lengths), FIN and RST also in mid-message: each cell is one real FSM run judged against the RFC 4271 8.2.2 / RFC 6608 table (legal progress, FSM error with state subcode and type octet, silent close), OnClose exactly once for Established cells. The table is finite and enumerated completely. Also semantically invalid OPENs in later states, 4096-octet messages, the table on the second session of a peer, other session configurations, a slow OnClose, and stimuli late in a session with running timers and a plugin write in between.",
    note="trusted: vinstr/vrt/vnet; default schedule only"),
  "C14": dict(level="exploration", design="4/C14",
    technique="bounded-exhaustive enumeration of configurations and plugin capability lists; first message of each real connection parsed by an independent strict OPEN parser",
-   text="Product of boundary local AS / hold time / router id values with all capability lists up to depth 2 (quick) / 3 (thorough) over a code x length alphabet, totals around the 255-octet limits and unrepresentable lists, both connection directions; the OPEN the real FSM writes is parsed strictly (all four nested lengths) and compared field by field with the configuration.",
+   text="Product of boundary local AS / hold time / router id values with all capability lists up to depth 2 (quick) / 3 (thorough) over a code x length alphabet, totals around the 255-octet limits and unrepresentable lists, both connection directions; the OPEN the real FSM writes is parsed strictly (all four nested lengths) and compared field by field with the configuration. Also the OPEN of a second connection (after another negotiated hold time, with the plugin handing out the same list again or editing its values in place) and router ids in IPv4-mapped form.",
    note="trusted: vinstr/vrt/vnet, wire.ParseOpenStrict; default schedule only"),
  "C01": dict(level="model_checking", design="4/C01",
    technique="stateless model checking of the implementation: delay-bounded exhaustive schedule exploration with happens-before caching, callback-history automaton on every execution",
-   text="The real corebgp (mechanically rewritten onto the vrt scheduler) is executed over the product of connection scripts (8 failure/success scripts on the first inbound and the first outbound connection), identifier dominance, active/passive mode, API tails (Close, DeletePeer, DeletePeer+AddPeer) and trigger points; for each scenario every schedule within the delay bound is enumerated and a monitor automaton checks OnEstablished/OnClose alternation and non-overlap, handler placement, GetCapabilities/OnOpenMessage per connection and session markers per connection. Complete inside the bound and the scenario set, silent outside.",
+   text="The real corebgp (mechanically rewritten onto the vrt scheduler) is executed over the product of connection scripts (8 failure/success scripts on the first inbound and the first outbound connection), identifier dominance, active/passive mode, API tails (Close, DeletePeer, DeletePeer+AddPeer) and trigger points; for each scenario every schedule within the delay bound is enumerated and a monitor automaton checks OnEstablished/OnClose alternation and non-overlap, handler placement, GetCapabilities/OnOpenMessage per connection and session markers per connection. Complete inside the bound and the scenario set, silent outside. Also: concurrent second API calls swept over the steps of DeletePeer/Close, several peers, a duplicate OPEN on one connection, twins of the scenarios under the legacy timer-channel semantics, with hold time 0 and with one plugin callback taking virtual time.",
    note="trusted: vinstr/vrt/vnet; bound 1 (quick) / 2 (thorough) deviations from the canonical schedule"),
  "C07": dict(level="model_checking", design="4/C07",
    technique="stateless model checking of the implementation: delay-bounded exhaustive schedule exploration of scripted two-connection collision scenarios; the 20 forced-collision cases are also run on the Go runtime over loopback TCP against the unrewritten package and the outcomes compared (traces_validated_against_impl)",
-   text="For 4 identifier/AS configurations x both arrival orders x 4 scenario shapes the remote's script forces a collision (or a precedence situation) and all schedules within the delay bound (2 quick / 3 thorough) of the two FSMs, manager, readers are enumerated on the real code; the oracle names the connection that must survive per RFC 4271 6.8 / RFC 6286 and requires Cease+EOF on the other, an untouched survivor that establishes and still delivers UPDATEs.",
+   text="For 4 identifier/AS configurations x both arrival orders x 4 scenario shapes the remote's script forces a collision (or a precedence situation) and all schedules within the delay bound (2 quick / 3 thorough) of the two FSMs, manager, readers are enumerated on the real code; the oracle names the connection that must survive per RFC 4271 6.8 / RFC 6286 and requires Cease+EOF on the other, an untouched survivor that establishes and still delivers UPDATEs. Further shapes: the remote resolves the collision itself, a second collision with the other side dominant, a collision after an aborted inbound attempt, a misbehaving connection showing up while a session is Established; identifier pairs far apart and pairs whose order flips under octet reversal; legacy-timer, hold-0 and slow-callback twins.",
    note="trusted: vinstr/vrt/vnet; dominance judged only where the remote's script removes TCP-level ambiguity"),
  "C10": dict(level="model_checking", design="4/C10",
    technique="stateless model checking of the implementation: API call injected at every step index x delay-bounded schedule exploration, vector-clock data-race detection on every execution",
-   text="Close/DeletePeer is issued at every step index of the default execution (and at the first quiescent point) of 14 connection scripts covering every FSM state in both directions, collision, damping, active writers, reconnect and a by-stander peer; around each trigger all schedules within the delay bound are enumerated on the real code. Oracles: bounded virtual latency, Serve return value, every library connection closed, Cease before EOF on healthy connections, callback monitor, goroutine-leak rule at a post-return quiescent cut, and a FastTrack-style race detector fed by instrumented field/array/map accesses on every execution.",
+   text="Close/DeletePeer is issued at every step index of the default execution (and at the first quiescent point) of 14 connection scripts covering every FSM state in both directions, collision, damping, active writers, reconnect and a by-stander peer; around each trigger all schedules within the delay bound are enumerated on the real code. Oracles: bounded virtual latency, Serve return value, every library connection closed, Cease before EOF on healthy connections, callback monitor, goroutine-leak rule at a post-return quiescent cut, and a FastTrack-style race detector fed by instrumented field/array/map accesses on every execution. Also Close with a concurrent AddPeer or an arriving connection, bursts of inbound connections, hold-time-0 peers, a peer that stopped reading on a bounded-window network (known finding D16), API calls landing inside a slow plugin callback.",
    note="trusted: vinstr/vrt/vnet; race detector scope A5; bound 1 (quick) / 2 (thorough)"),
  "C15": dict(level="exploration", design="4/C15",
    technique="bounded-exhaustive input enumeration of codec values and byte strings vs independent reference encoder / strict parser (white-box through a generated export shim)",
@@ -45,19 +45,19 @@ CHECKS = {
    note="trusted: refmodel/prefix.go"),
  "C03": dict(level="exploration", design="4/C03",
    technique="bounded-exhaustive enumeration of message sequences x TCP segmentations through the virtual wire into the real reader/FSM/handler, plus delay-bounded schedule exploration for short streams",
-   text="All sequences of up to 3 (quick) / 4 (thorough) messages over {KEEPALIVE, UPDATE of 0,1,4,23,4077 bytes} crossed with fixed write sizes (incl. 1-byte writes), every partition with up to two cut points from a dense position set, read coalescing on/off and both directions; handler notifications at the j-th UPDATE; the handler log must equal the sent bodies (once, in order, byte-exact), delivered slices are re-compared at the end and must not alias; reader/FSM/handler interleavings within the delay bound for the short streams.",
+   text="All sequences of up to 3 (quick) / 4 (thorough) messages over {KEEPALIVE, UPDATE of 0,1,4,23,4077 bytes} crossed with fixed write sizes (incl. 1-byte writes), every partition with up to two cut points from a dense position set, read coalescing on/off and both directions; handler notifications at the j-th UPDATE; the handler log must equal the sent bodies (once, in order, byte-exact), delivered slices are re-compared at the end and must not alias; reader/FSM/handler interleavings within the delay bound for the short streams. Also bulk runs of hundreds of messages, slow and echoing handlers, hold time 0, a handler outlasting the hold time, and two peers receiving split-header streams at the same instant under all schedules within the bound.",
    note="trusted: vinstr/vrt/vnet; segmentation model A3"),
  "C04": dict(level="model_checking", design="4/C04",
    technique="stateless model checking of the implementation: delay-bounded exhaustive schedule exploration of concurrent WriteUpdate callers vs keepalive timer vs teardown, strict frame parser on all written bytes, race detector",
-   text="WriteUpdate from inside OnEstablished, from inside the handler and from 1-3 free goroutines, timed to coincide with the keepalive timer and with FIN / received NOTIFICATION / handler NOTIFICATION / Close, followed by reconnection and reuse of the old writers; all schedules within the delay bound on the real code; every byte corebgp wrote is parsed strictly per connection and matched as a multiset and per-goroutine order against the calls' return values.",
+   text="WriteUpdate from inside OnEstablished, from inside the handler and from 1-3 free goroutines, timed to coincide with the keepalive timer and with FIN / received NOTIFICATION / handler NOTIFICATION / Close, followed by reconnection and reuse of the old writers; all schedules within the delay bound on the real code; every byte corebgp wrote is parsed strictly per connection and matched as a multiset and per-goroutine order against the calls' return values. Also a stalled reader on a bounded-window network, a plugin whose OnClose joins its writers, two peers with a writer each, writes from inside the handler after an RST, and a header fault arriving while writers are active.",
    note="trusted: vinstr/vrt/vnet; Write atomicity assumption A3"),
  "C06": dict(level="exploration", design="4/C06",
    technique="bounded-exhaustive enumeration of (local hold, remote hold, traffic pattern, write pattern, timer semantics) in virtual time on the real FSM, plus delay-bounded schedule exploration around expiry; thorough tier: 48 cases are also run in real time on the Go runtime over loopback TCP and the timelines compared with the virtual ones (conformance of the virtual clock)",
-   text="The 8x8 hold-time grid x 7 remote traffic patterns (incl. KEEPALIVE 1 ns before and exactly at expiry) x 3 local write patterns x both Go timer-channel semantics, each run for 3 hold times of virtual time (10x65535 s for hold 0) with time-stamped wire observations: negotiated value, no early expiry, expiry with (4,0)+EOF after silence, keepalive/UPDATE cadence <= hold/3 + 1 s, hold 0 never expires and sends no periodic KEEPALIVEs.",
+   text="The 8x8 hold-time grid x 7 remote traffic patterns (incl. KEEPALIVE 1 ns before and exactly at expiry) x 3 local write patterns x both Go timer-channel semantics, each run for 3 hold times of virtual time (10x65535 s for hold 0) with time-stamped wire observations: negotiated value, no early expiry, expiry with (4,0)+EOF after silence, keepalive/UPDATE cadence <= hold/3 + 1 s, hold 0 never expires and sends no periodic KEEPALIVEs. Also second sessions after a session with another hold time, nil handlers, a slow handler around expiry, and one WriteUpdate at every step of the FSM's keepalive path.",
    note="trusted: vinstr/vrt virtual clock; zero-time computation A4"),
  "C16": dict(level="exploration", design="4/C16",
    technique="bounded-exhaustive input enumeration of UpdateDecoder.Decode vs an independent reference partitioner",
-   text="All byte strings up to length 7 (quick) / 9 (thorough) over a 12-symbol protocol alphabet, a grammar-generated set with length-field mutations, 4077-byte bodies and bodies above 65535 bytes for all boundary pairs of the two length fields; recorded callback arguments must equal the reference partition (withdrawn, each attribute with type/flags/value, NLRI), duplicate suppression, MP duplicate abort, overrun rules, no callback on message-level overrun, no panic.",
+   text="All byte strings up to length 7 (quick) / 9 (thorough) over a 12-symbol protocol alphabet, a grammar-generated set with length-field mutations, 4077-byte bodies and bodies above 65535 bytes for all boundary pairs of the two length fields; recorded callback arguments must equal the reference partition (withdrawn, each attribute with type/flags/value, NLRI), duplicate suppression, MP duplicate abort, overrun rules, no callback on message-level overrun, no panic. Also pairs of bodies decoded by one decoder at the same time (the inner one inside a callback of the outer one).",
    note="trusted: refmodel/update.go"),
  "C17": dict(level="exploration", design="4/C17",
    technique="bounded-exhaustive enumeration of UPDATE bodies x callback behaviours x error trees vs a reference RFC 7606 classifier",
@@ -69,19 +69,19 @@ CHECKS = {
    note="trusted: vinstr/vrt virtual clock, vnet dial scripts"),
  "C12": dict(level="fault_enumeration", design="4/C12",
    technique="exhaustive enumeration of error / non-damping event / elapsed-time histories on the real code in virtual time vs a reference damping automaton; delay-bounded schedule exploration incl. a two-connection race",
-   text="Every one of 46 protocol-error kinds alone and after an earlier error with timings {asap, 299 s, 301 s}, all histories up to length 4 (quick) / 5 (thorough) over a reduced alphabet with non-damping events (Cease, FIN, DeletePeer+AddPeer), chains of 5-8 errors (doubling, cap, amnesia), active and passive; the hold-down is measured by the absence/presence of dial attempts and by inbound probes 1 ns after the error, mid-way and 1 ns before release, and compared with the reference automaton. Schedules: single-error histories and a protocol error racing with the other connection becoming Established (finds D15, recorded as known finding).",
+   text="Every one of 46 protocol-error kinds alone and after an earlier error with timings {asap, 299 s, 301 s}, all histories up to length 4 (quick) / 5 (thorough) over a reduced alphabet with non-damping events (Cease, FIN, DeletePeer+AddPeer), chains of 5-8 errors (doubling, cap, amnesia), active and passive; the hold-down is measured by the absence/presence of dial attempts and by inbound probes 1 ns after the error, mid-way and 1 ns before release, and compared with the reference automaton. Schedules: single-error histories and a protocol error racing with the other connection becoming Established (finds D15, recorded as known finding). Also every Cease subcode at every state (never damping), NOTIFICATIONs riding behind another message with FIN right behind, protocol errors whose NOTIFICATION cannot be written, a connection arriving at the instant of the error, and a busy-manager scenario (error handled while the manager waits for a slow callback and a third connection knocks).",
    note="trusted: vinstr/vrt virtual clock; refDamp automaton (20 lines)"),
  "C13": dict(level="exploration", design="4/C13",
    technique="exhaustive enumeration of the (peer set, peer state, source, destination) grid on the real server over the virtual network; delay-bounded schedule exploration for the configured source",
-   text="384 cells: 4 peer sets x 10 states of the peer at arrival x 4 sources x 3 destinations (three listeners incl. a wildcard), each judged against the admission predicate of the property: OPEN received iff admissible, otherwise EOF with zero bytes written, no callback for it, and the existing session still delivers a probe UPDATE.",
+   text="384 cells: 4 peer sets x 10 states of the peer at arrival x 4 sources x 3 destinations (three listeners incl. a wildcard), each judged against the admission predicate of the property: OPEN received iff admissible, otherwise EOF with zero bytes written, no callback for it, and the existing session still delivers a probe UPDATE. Also passive peers with a (specified or unspecified) local address, a wildcard-only listener with an earlier connection, bursts of simultaneous connections, a connection arriving while the peer is being deleted, a hold-down whose NOTIFICATION could not be written; schedules within the bound for the configured source.",
    note="trusted: vinstr/vrt/vnet (real net.TCPAddr endpoints)"),
  "C20": dict(level="model_checking", design="4/C20",
    technique="exhaustive validation grid and operation sequences vs a reference map; stateless model checking of concurrent registry clients with linearizability checking (porcupine) of every explored history",
-   text="28 800 configurations against the rejection predicate; all operation sequences up to length 5/6 in three server phases against a map; 2-3 concurrent clients on colliding keys with Serve/Close interleaved: every schedule within the delay bound is executed on the real code and each complete call/return history is checked for linearizability against the map model, with the race detector on; lifecycle scenarios (dial only after Serve, start on add, stop on delete, Serve after Close).",
+   text="28 800 configurations against the rejection predicate; all operation sequences up to length 5/6 in three server phases against a map; 2-3 concurrent clients on colliding keys with Serve/Close interleaved: every schedule within the delay bound is executed on the real code and each complete call/return history is checked for linearizability against the map model, with the race detector on; lifecycle scenarios (dial only after Serve, start on add, stop on delete, Serve after Close). Also passive peers after an inbound session, IPv6 peers with local address and non-default ports in both directions (dial target and source), and the BGP Identifier announced for every accepted router-id form.",
    note="trusted: vinstr/vrt, porcupine v1.3.0, refMap"),
  "C05": dict(level="exploration", design="4/C05",
    technique="bounded-exhaustive enumeration of hostile byte streams at every FSM state, of byte strings into every exported decoder, and of API call sequences (with delay-bounded schedules) on the real code, each followed by a liveness probe",
-   text="Every type octet / boundary length / marker corruption / truncation+FIN / OPEN body of G02 / short UPDATE body (through a plugin wiring all typed decoders) at each state and direction, followed by a second peer that must still establish, Close and Serve that must return and an empty set of library goroutines; all byte strings up to length 2 (3) over all 256 values into each of 23 exported decoding entry points plus lengths up to 70000; all API sequences up to length 4 (5) incl. repeated Serve under all schedules within delay bound 1.",
+   text="Every type octet / boundary length / marker corruption / truncation+FIN / OPEN body of G02 / short UPDATE body (through a plugin wiring all typed decoders) at each state and direction, followed by a second peer that must still establish, Close and Serve that must return and an empty set of library goroutines; all byte strings up to length 2 (3) over all 256 values into each of 23 exported decoding entry points plus lengths up to 70000; all API sequences up to length 4 (5) incl. repeated Serve under all schedules within delay bound 1. Also the UPDATE body sets of C16 into UpdateDecoder (returns-at-all oracle), the matrix of first-connection scripts of C01 run to the end of their reconnections, plugins that couple their callbacks, inbound connections and a boundary-option peer as API operations.",
    note="trusted: vinstr/vrt/vnet; panic attribution by stack frames"),
 }
 
